@@ -24,6 +24,12 @@ class Sentinel:
     def ljust(self, *a):
         return self
 
+    def __len__(self):
+        return 1
+
+    def __iter__(self):
+        return iter([self])
+
     def __add__(self, other):
         return self
 
@@ -226,6 +232,25 @@ def negative_type(k: int) -> bool:
     return len(values) == len(ctx.asked) and len(values) >= 1
 
 
+def negative_items(lo: int, hi: int, both: bool) -> bool:
+    """
+    pre: lo <= hi
+    post: _
+    """
+    schema = {"type": "array", "items": {"type": "integer", "minimum": lo, "maximum": hi}}
+    ctx = StubCtx(generation_modes=[GenerationMode.POSITIVE, GenerationMode.NEGATIVE] if both else [GenerationMode.NEGATIVE])
+    seen_invalid_items = 0
+    for gv in cov.cover_schema_iter(ctx, schema):
+        d = gv.description or ""
+        if gv.generation_mode == GenerationMode.NEGATIVE and d.startswith("Array with invalid items") and isinstance(gv.value, list) and len(gv.value) == 1:
+            item = gv.value[0]
+            if isinstance(item, int) and not isinstance(item, bool):
+                seen_invalid_items += 1
+                if lo <= item <= hi:
+                    return False  # an array presented as holding an invalid item holds a conforming one
+    return seen_invalid_items >= 1
+
+
 def both_modes_number(minimum: Optional[int], maximum: Optional[int]) -> bool:
     """
     pre: minimum is None or maximum is None or minimum <= maximum
@@ -375,6 +400,9 @@ OBLIGATIONS = [
     Ob(fn="negative_type", clause="a value presented as having an incorrect type is drawn for a type the schema does not admit (integers are never offered as wrong where `number` is admitted, alone or in a type list)",
        timeout=120, functions=["schemathesis.generation.coverage._negative_type"], symbolic="which of 13 `type` forms (7 names, 6 lists) is declared", bounds="13 type forms (the list [integer, number] makes the function raise KeyError and is excluded)",
        stubs=["ctx.generate_from records the strategy it was asked to draw from"], outside=["the values Hypothesis draws from those per-type strategies"]),
+    Ob(fn="negative_items", clause="an array presented as invalid because of its items really holds an item that violates the item schema, also when valid and invalid values are generated together",
+       timeout={"quick": 200, "thorough": 600}, functions=["schemathesis.generation.coverage._negative_items", "schemathesis.generation.coverage.cover_schema_iter"],
+       symbolic="minimum and maximum of the item schema (unbounded ints), modes [negative] or [positive, negative]", bounds="one integer item schema; unbounded bounds"),
     Ob(fn="both_modes_number", clause="with both modes, each boundary number is labelled positive iff it conforms",
        timeout={"quick": 120, "thorough": 400}, functions=["schemathesis.generation.coverage.cover_schema_iter",
                                                           "schemathesis.generation.coverage._cover_positive_for_type"] + _NUM_FUNCS,
